@@ -84,6 +84,10 @@ def level_selectors(nlev):
         yield lv, "A", lv
     yield nlev, "C", None
     yield -1, "B", nlev - 1
+    # negative keys down to and beyond the number of levels: -nlev names level 0 (or raises), anything below must raise
+    yield -nlev, "B", 0
+    for k in (-nlev - 1, -nlev - 2, -2 * nlev, -2 * nlev - 1, nlev + 1):
+        yield k, "C", None
 
 
 def box_selectors(nb, rich=True, maxlist=3):
